@@ -12,9 +12,11 @@ impl YaccGrammar {
     pub uninterp spec fn nprods(&self) -> nat;   // prods_len
     pub uninterp spec fn prods(&self) -> Seq<Seq<Symbol<$T>>>;
     pub uninterp spec fn rule_of(&self) -> Seq<RIdx<$T>>;       // prod -> rule
+    pub uninterp spec fn rule_prods(&self) -> Seq<Seq<PIdx<$T>>>; // rule -> its productions
     pub uninterp spec fn eof(&self) -> TIdx<$T>;
     pub uninterp spec fn startp(&self) -> PIdx<$T>;
 
+    pub open spec fn in_rule_prods(&self, r: int, p: int) -> bool { exists|k: int| 0 <= k < self.rule_prods()[r].len() && (#[trigger] self.rule_prods()[r][k]).0 == p }
     // cfgrammar/src/lib/mod.rs:41-47 numbering guarantees
     pub open spec fn wf(&self) -> bool {
         &&& self.ntok() <= $TMAX && self.nrules() <= $TMAX && self.nprods() <= $TMAX
@@ -24,6 +26,15 @@ impl YaccGrammar {
         &&& (self.startp().0 as nat) < self.nprods()
         &&& forall|p: int| 0 <= p < self.nprods() ==> (#[trigger] self.rule_of()[p]).0 < self.nrules()
         &&& forall|p: int| 0 <= p < self.nprods() ==> (#[trigger] self.prods()[p]).len() <= $TMAX
+        // rules <-> productions, every symbol index in range
+        &&& self.rule_prods().len() == self.nrules()
+        &&& forall|r: int, k: int| 0 <= r < self.nrules() && 0 <= k < self.rule_prods()[r].len() ==>
+                ((#[trigger] self.rule_prods()[r][k]).0 as nat) < self.nprods() && self.rule_of()[self.rule_prods()[r][k].0 as int].0 == r
+        &&& forall|p: int| 0 <= p < self.nprods() ==> self.in_rule_prods(#[trigger] self.rule_of()[p].0 as int, p)
+        &&& forall|p: int, i: int| 0 <= p < self.nprods() && 0 <= i < self.prods()[p].len() ==> match #[trigger] self.prods()[p][i] {
+                Symbol::Rule(r) => (r.0 as nat) < self.nrules(),
+                Symbol::Token(t) => (t.0 as nat) < self.ntok(),
+            }
     }
 
     #[verifier::external_body]
@@ -44,6 +55,8 @@ impl YaccGrammar {
     pub fn prod(&self, p: PIdx<$T>) -> (r: &[Symbol<$T>]) requires (p.0 as nat) < self.nprods() ensures r@ == self.prods()[p.0 as int] { unimplemented!() }
     #[verifier::external_body]
     pub fn prod_len(&self, p: PIdx<$T>) -> (r: SIdx<$T>) requires (p.0 as nat) < self.nprods() ensures r.0 == self.prods()[p.0 as int].len() { unimplemented!() }
+    #[verifier::external_body]
+    pub fn rule_to_prods(&self, r: RIdx<$T>) -> (ps: &[PIdx<$T>]) requires (r.0 as nat) < self.nrules() ensures ps@ == self.rule_prods()[r.0 as int] { unimplemented!() }
     #[verifier::external_body]
     pub fn prod_to_rule(&self, p: PIdx<$T>) -> (r: RIdx<$T>) requires (p.0 as nat) < self.nprods() ensures r == self.rule_of()[p.0 as int] { unimplemented!() }
 }
